@@ -20,6 +20,26 @@ def ufunc(name, *sorts):
 class CallMixin:
     # ---------------------------------------------------------------- entry
     def ev_Call(self, e, st, exc, expect):
+        if any(isinstance(a, ast.Starred) for a in e.args) and not any(k.arg is None for k in e.keywords):
+            # f(*t) where t is a tuple of known arity: the same call with t[0], ..., t[n-1]
+            new_args, ok_ = [], True
+            for a in e.args:
+                if not isinstance(a, ast.Starred):
+                    new_args.append(a)
+                    continue
+                probe = self.ev(a.value, st.copy(), [])
+                if len(probe) == 1 and isinstance(probe[0][1].s, Tup) and isinstance(a.value, (ast.Name, ast.Attribute)):
+                    for k_ in range(len(probe[0][1].s.elems)):
+                        sub = ast.Subscript(value=a.value, slice=ast.Constant(value=k_), ctx=ast.Load())
+                        ast.copy_location(sub, a)
+                        ast.fix_missing_locations(sub)
+                        new_args.append(sub)
+                else:
+                    ok_ = False
+            if ok_:
+                e2 = ast.Call(func=e.func, args=new_args, keywords=e.keywords)
+                ast.copy_location(e2, e)
+                return self.ev_Call(e2, st, exc, expect)
         if any(isinstance(a, ast.Starred) for a in e.args) or any(k.arg is None for k in e.keywords):
             return self.opaque_call(e, st, exc, expect, star=True)
         text = ast.unparse(e.func)
